@@ -327,7 +327,18 @@ fn judge(
 ) {
     let op = &t["o"];
     let pre_full = t["s"].as_array().map(|a| a.len()).unwrap_or(0) >= cap;
-    let props = op_props(op, pre_full, &t["r"]);
+    // an equality-visible mismatch contradicts the call's own property; stored-key identity (C12)
+    // only when the mismatch disappears once identities are ignored (identity_only below); the
+    // full-container clauses (C03) only when a panic / refusal is involved on either side
+    let props = {
+        let is_refusal = |v: &Value| v[0] == "panic" || v["r"] == "panic" || (v[0] == "none" && op["name"] == "checked_insert");
+        let all = op_props(op, pre_full, &t["r"]);
+        let mut keep: Vec<&str> = all.split(',').filter(|p| *p != "C12" && (*p != "C03" || is_refusal(&t["r"]) || is_refusal(ret))).collect();
+        if keep.is_empty() {
+            keep = all.split(',').collect();
+        }
+        keep.join(",")
+    };
     // the object made by Default during the call is the model's fresh object
     if let Some(d) = ledger::with(|l| l.defaults.first().copied()) {
         if !ctx.tags.v.contains_key(&FRESH) {
